@@ -125,10 +125,30 @@ class AtomError(Exception):
     pass
 
 
+def _stripped(origin: Any, value: SymStr) -> Optional[Tuple[str, CharSet]]:
+    """origin is value.lstrip(<constant chars>) / value.rstrip(...): (side, the stripped character set)."""
+    if isinstance(origin, Term) and origin.op == "strmeth" and origin.args[0] is value and origin.args[1] in ("lstrip", "rstrip"):
+        a = origin.args[2]
+        if len(a) == 1 and isinstance(a[0], Const) and isinstance(a[0].value, str) and a[0].value:
+            return origin.args[1], CharSet.of(a[0].value)
+    return None
+
+
 def atom_rx(run: Any, key: Any, value: SymStr) -> Rx:
     """Language (over the token's lexeme) of an atom being TRUE."""
     ctx = run.ctx
     info = ctx.atom_info.get(key)
+    if info is not None and info["kind"] == "strpred" and _stripped(info["recv"], value) and info["name"] == "startswith" and _stripped(info["recv"], value)[0] == "lstrip":
+        _side, cs = _stripped(info["recv"], value)
+        a = info["args"][0] if len(info["args"]) == 1 else None
+        consts = [a] if isinstance(a, Const) else list(a.items) if isinstance(a, PyTuple) else None
+        if consts is None or not all(isinstance(c, Const) and isinstance(c.value, str) and c.value for c in consts):
+            raise AtomError("startswith on a stripped lexeme with a non-constant or empty prefix")
+        # the stripped text never starts with a stripped character
+        alts = [lit(c.value) for c in consts if not cs.contains(ord(c.value[0]))]
+        if not alts:
+            return Chars(CharSet())
+        return Seq(star(Chars(cs)), Alt(*alts) if len(alts) > 1 else alts[0], SIGMA_STAR)
     if info is not None and info["kind"] == "strpred":
         if info["recv"] is not value:
             raise AtomError(f"string predicate on {describe(info['recv'])!r}, not on the lexeme")
@@ -152,6 +172,13 @@ def atom_rx(run: Any, key: Any, value: SymStr) -> Rx:
         if not (isinstance(pat, Const) and isinstance(pat.value, str)):
             raise AtomError("dynamic regex")
         return from_sre(pat.value, mode=info["mode"] if info["mode"] in ("match", "fullmatch") else "search")
+    if info is not None and info["kind"] == "contains":
+        if info["recv"] is not value:
+            raise AtomError("substring test on something else than the lexeme")
+        item = info["item"]
+        if not isinstance(item, str) or not item:
+            raise AtomError("substring test with a non-constant needle")
+        return Seq(SIGMA_STAR, lit(item), SIGMA_STAR)
     if info is not None and info["kind"] == "convert":
         if info["recv"] is not value:
             raise AtomError("conversion of something else than the lexeme")
@@ -175,6 +202,21 @@ def atom_rx(run: Any, key: Any, value: SymStr) -> Rx:
         if origin is value:
             r = length_rx(ANY)
             return r if r is not None else Chars(CharSet())
+        st = _stripped(origin, value)
+        if st is not None and st[0] == "lstrip":
+            # value = C* rest, rest empty or starting outside C; the atom bounds len(rest)
+            cs = st[1]
+            notc = Chars(cs.negate())
+            if c > 0:
+                m = (-const) // c  # len(rest) <= m
+                if m < 0:
+                    return Chars(CharSet())
+                rest = Alt(Eps(), Seq(notc, Rep(ANY, 0, m - 1))) if m >= 1 else Eps()
+            else:
+                cc = -c
+                m = (const + cc - 1) // cc  # len(rest) >= m
+                rest = Seq(notc, Rep(ANY, max(m - 1, 0), None)) if m >= 1 else Alt(Eps(), Seq(notc, SIGMA_STAR))
+            return Seq(star(Chars(cs)), rest)
         # value.split(sep)[0]
         if isinstance(origin, Term) and origin.op == "getitem" and isinstance(origin.args[1], Const) and origin.args[1].value == 0:
             base = origin.args[0]
@@ -206,6 +248,7 @@ def site_language(model: Model, regex_names: List[str], patterns: Dict[str, str]
     def body(it: Interp) -> Any:
         v = it.new_str("lexeme")
         holder["v"] = v
+        it.ctx.lexeme_sym = v  # type: ignore[attr-defined]
         r = run_site(it, v)
         return r, v
 
@@ -220,8 +263,10 @@ def site_language(model: Model, regex_names: List[str], patterns: Dict[str, str]
     rxs: Dict[Any, Rx] = {}
     try:
         for run in runs:
-            v = None
-            if run.kind == "return":
+            v = getattr(run.ctx, "lexeme_sym", None)
+            if v is not None:
+                pass
+            elif run.kind == "return":
                 v = run.value[1]
             else:
                 # recover the lexeme symbol: the SymStr named 'lexeme'
@@ -292,7 +337,11 @@ def site_language(model: Model, regex_names: List[str], patterns: Dict[str, str]
             cur = cur.product(langs[sig] if truth else langs[sig].complement(), "and")
         w = cur.shortest()
         if w is not None:
-            out.crashes.append(f"{crash} (e.g. lexeme {w!r})")
+            mag = any(isinstance(k, tuple) and k[0] == "int-of-float" and val != "ok" for k, val in _run.ctx.world.items())
+            if mag:
+                out.crashes.append(f"{crash} (lexemes of the shape of {w!r} whose value is too large for a float, e.g. an exponent of 400)")
+            else:
+                out.crashes.append(f"{crash} (e.g. lexeme {w!r})")
     if acc is None:
         acc = Lang.from_rx(Chars(CharSet()), classes)
     out.accepted = acc.minimize()
@@ -308,12 +357,53 @@ def _sig(run: Any, key: Any) -> Any:
         return ("strpred", info["name"], repr(info["args"]))
     if info["kind"] == "regex":
         return ("regex", info["mode"], repr(info["pattern"]))
-    return ("convert", info["which"])
+    if info["kind"] == "contains":
+        return ("contains", info["item"])
+    if info["kind"] == "convert":
+        return ("convert", info["which"])
+    raise AtomError(f"atom of kind {info['kind']}")
 
 
 def diverge(acc: Lang, rfc: Rx, classes: List[CharSet]) -> List[Divergence]:
     want = Lang.from_rx(rfc, classes).minimize()
     return acc.divergences(want)
+
+
+def blank_recogniser_patterns(model: Model) -> List[str]:
+    """The patterns Lexer.ignore_whitespace matches at the pointer (one per syntactic path that consumes input)."""
+    lci = model.cls("lex.Lexer")
+    fn = lci.find_method("ignore_whitespace")
+    if fn is None:
+        raise AnalysisError("anchor vanished: Lexer.ignore_whitespace")
+
+    def body(it: Interp) -> Any:
+        q = it.new_str("query")
+        lx = it.instantiate(lci, [q], {}, None)
+        p_ = it.new_int("pos", 0)
+        it.ctx.assume_le0(p_.lin - Lin.var(q.len_var))
+        lx.attrs["pos"] = p_
+        lx.attrs["start"] = p_
+        r = it.call_function(fn, [lx], {}, None, self_av=lx)
+        return r, q, p_
+
+    found: List[str] = []
+    for run in paths(model, body):
+        if run.kind == "raise":
+            continue
+        r, q, p_ = run.value
+        for key, val in run.ctx.world.items():
+            info = run.ctx.atom_info.get(key)
+            if info and info["kind"] == "regex" and info["subject"] is q and val:
+                pat = info["pattern"]
+                if not (isinstance(pat, Const) and isinstance(pat.value, str)):
+                    raise AnalysisError("ignore_whitespace applies a dynamic pattern")
+                if not (isinstance(info["pos"], IntV) and info["pos"].lin == p_.lin and info["mode"] == "match"):
+                    raise AnalysisError("ignore_whitespace does not match at the pointer")
+                if pat.value not in found:
+                    found.append(pat.value)
+    if not found:
+        raise AnalysisError("Lexer.ignore_whitespace never consumes anything: no blank-space recogniser found")
+    return found
 
 
 def number_literal_union(model: Model, extra_rx: List[Rx] = ()) -> Tuple[Optional[Lang], List[CharSet], Optional[str]]:
@@ -380,8 +470,13 @@ def literal_site(model: Model, token_type: str) -> Callable[[Interp, SymStr], An
     return run
 
 
-def lexical_layer(model: Model, report: Report, side: str, rule_prefix: str) -> None:
-    """side = 'b-only' (RFC language not accepted: C03) or 'a-only' (accepted but not RFC: C04)."""
+def lexical_layer(model: Model, report: Report, side: str, rule_prefix: str, only: Any = None) -> None:
+    """side = 'b-only' (RFC language not accepted: C03) or 'a-only' (accepted but not RFC: C04).
+    only: restrict to some of L1..L6 (C01 uses the parts a filter-free query can contain)."""
+
+    def want(tag: str) -> bool:
+        return only is None or tag in only
+
     pats = lexer_patterns(model)
     tokre = token_regexes(model)
     lexq = "lex"
@@ -411,22 +506,24 @@ def lexical_layer(model: Model, report: Report, side: str, rule_prefix: str) -> 
         divs = Lang.from_rx(rx, classes).minimize().divergences(Lang.from_rx(rfc, classes).minimize())
         report_div(rule, f"{lexq}.{names[0]}", what, divs, len(classes))
 
-    # L1 blank space
-    ws_names = [n for n in pats if "WHITESPACE" in n or "BLANK" in n]
-    if not ws_names:
-        raise AnalysisError("no whitespace regex constant in lex.py")
-    rx = from_sre(pats[ws_names[0]])
-    classes = common_partition([rx, R.blank_run])
-    report_div(rule_prefix + ".L1", f"{lexq}.{ws_names[0]}", "blank-space", Lang.from_rx(rx, classes).minimize().divergences(Lang.from_rx(R.blank_run, classes).minimize()), len(classes))
+    # L1 blank space: the recogniser is whatever Lexer.ignore_whitespace applies at the pointer (read off its
+    # interpreted paths: regex literals and character-class scan loops alike), not a constant picked by name
+    if want("L1"):
+        ws_pats = blank_recogniser_patterns(model)
+        rx = Alt(*[from_sre(p_) for p_ in ws_pats]) if len(ws_pats) > 1 else from_sre(ws_pats[0])
+        classes = common_partition([rx, R.blank_run])
+        report_div(rule_prefix + ".L1", f"{lexq}.Lexer.ignore_whitespace", "blank-space", Lang.from_rx(rx, classes).minimize().divergences(Lang.from_rx(R.blank_run, classes).minimize()), len(classes))
     # L2 shorthand names, L5 function names
-    regex_only(rule_prefix + ".L2", "PROPERTY", R.member_name_shorthand, "member-name-shorthand")
-    regex_only(rule_prefix + ".L5", "FUNCTION", R.function_name, "function-name")
+    if want("L2"):
+        regex_only(rule_prefix + ".L2", "PROPERTY", R.member_name_shorthand, "member-name-shorthand")
+    if want("L5"):
+        regex_only(rule_prefix + ".L5", "FUNCTION", R.function_name, "function-name")
     # L3 index / slice components
     idx_names = tokre.get("INDEX") or []
     if not idx_names:
         raise AnalysisError("no regex is emitted as INDEX")
     langs = {}
-    for pos in ("selector", "start", "stop", "step"):
+    for pos in ("selector", "start", "stop", "step") if want("L3") else ():
         sl = site_language(model, idx_names, pats, index_site(model, pos))
         site = "parse.Parser.parse_bracketed_selection" if pos == "selector" else "parse.Parser.parse_slice"
         what = f"index-lexeme:{pos}"
@@ -441,10 +538,13 @@ def lexical_layer(model: Model, report: Report, side: str, rule_prefix: str) -> 
     int_names, float_names = tokre.get("INT") or [], tokre.get("FLOAT") or []
     if not int_names or not float_names:
         raise AnalysisError("no regex is emitted as INT/FLOAT")
-    si = site_language(model, int_names, pats, literal_site(model, "INT"), exclude_prefix_of=float_names, extra_rx=[from_sre(pats[n]) for n in float_names])
-    sf = site_language(model, float_names, pats, literal_site(model, "FLOAT"), extra_rx=[from_sre(pats[n]) for n in int_names])
     site = "parse.Parser.parse_integer_literal"
-    if si.undecided or sf.undecided:
+    if want("L4"):
+        si = site_language(model, int_names, pats, literal_site(model, "INT"), exclude_prefix_of=float_names, extra_rx=[from_sre(pats[n]) for n in float_names])
+        sf = site_language(model, float_names, pats, literal_site(model, "FLOAT"), extra_rx=[from_sre(pats[n]) for n in int_names])
+    if not want("L4"):
+        pass
+    elif si.undecided or sf.undecided:
         report.undecided(rule_prefix + ".L4", site, f"number literals: {si.undecided or sf.undecided}")
     else:
         # same partition for both (built from the same set of regexes is not guaranteed): rebuild on a joint one
@@ -463,6 +563,8 @@ def lexical_layer(model: Model, report: Report, side: str, rule_prefix: str) -> 
         for c in sorted(set(si.crashes + sf.crashes)):
             report.fail(rule_prefix + ".L4", site, f"number-literal:crash:{c}", f"number literal: some lexemes make the parser raise {c} instead of a JSONPathError")
     # L6 string literal bodies: lexer state (one generic iteration) x decoder tables (abstract interpretation)
+    if not want("L6"):
+        return
     from . import _strings
 
     dm = _strings.extract_decoder(model)
@@ -487,6 +589,13 @@ def lexical_layer(model: Model, report: Report, side: str, rule_prefix: str) -> 
             if definite and side == "a-only":
                 for k, msg in definite:
                     report.fail(rule_prefix + ".L6", site, f"{what}:{k}", f"{what}: {msg}")
+                continue
+            # an accepted escape that does not consume its second character leaves that character to be scanned again:
+            # after `\\` the closing quote is taken for an escaped one, so well-formed literals are refused
+            refusing = [pp for pp in lx["problems"] if pp[0] in ("lex:escape-advance",)]
+            if refusing and side == "b-only":
+                for k, msg in refusing:
+                    report.fail(rule_prefix + ".L6", site, f"{what}:{k}", f"{what}: {msg}; e.g. a literal ending in an escaped backslash is scanned past its closing quote")
                 continue
             over, under, value_only, other = _strings.classify_problems(dm.problems)
             if under and side == "b-only":
